@@ -99,4 +99,11 @@ def words(repo="/repo"):
         for b in big[:40]:
             if a < b:
                 out.add(a ^ b); out.add((a + b) & M64); out.add((a - b) & M64); out.add((b - a) & M64)
+    # a guard on a SMALL constant deep inside a computation (`if z == 0x1234` after `z = x + GAMMA`) is reached from the inputs by a
+    # combination with one of the big constants: the small literals above 64 (few: bit-field widths, exponent biases, the surrogate
+    # bounds) are combined with every big one
+    mid = sorted(v for v in base if 64 < v < (1 << 16))
+    for a in mid[:24]:
+        for b in big[:40]:
+            out.add(a ^ b); out.add((a + b) & M64); out.add((a - b) & M64); out.add((b - a) & M64)
     return sorted(out)
